@@ -156,11 +156,17 @@ pub fn step_tags(st: &Step) -> u32 {
 /// property tags of "this step panicked although all user code is well behaved"
 pub fn panic_tags(st: &Step) -> u32 {
     C04 | match st.fam() {
-        Fam::Extend | Fam::FromIter => C07,
-        Fam::Iter | Fam::Adapt => C13,
+        Fam::Extend | Fam::FromIter | Fam::FromVec | Fam::Append | Fam::Convert => C07,
+        Fam::Iter | Fam::Adapt | Fam::IntoVec => C13,
+        Fam::Sorted | Fam::SortedEp => C06,
+        Fam::Retain | Fam::PopIf => C08,
+        Fam::Drain | Fam::DrainLeak | Fam::Clear => C16,
+        Fam::CloneSwap | Fam::CloneFrom | Fam::EqSelf => C14,
+        Fam::Reserve | Fam::Shrink => C17,
         Fam::IterMut | Fam::IterMutLeak => C09,
         Fam::Serde => C15,
         Fam::TryReserve => C17,
+        Fam::PushInc | Fam::PushDec => C11,
         _ => 0,
     }
 }
@@ -425,9 +431,16 @@ pub fn exec(q: &mut AnyQ, m: &mut Model, st: &Step, cx: &mut Ctx) {
         Step::Push { k, p, pl } => {
             let exp = m.prio(*k);
             probe_push(q, m, *k, cx);
-            let r = q.push(Key::new(*k, *pl), Prio::new(*p)).map(|x| x.v);
+            // priorities carry a stamp outside Ord/Eq: "returns the previous priority" and "holds
+            // the last one assigned" are then observable even when old and new compare equal
+            let stored0 = q.prio_stamp(&KeyId(*k));
+            let rr = q.push(Key::new(*k, *pl), Prio::stamped(*p, *pl));
+            let rstamp = rr.as_ref().map(|x| x.s);
+            let r = rr.map(|x| x.v);
             cx.ret_opt_i32(r);
             expect!(cx, C03, "push_ret", r == exp, "push({},{}) returned {:?}, model says {:?}", k, p, r, exp);
+            expect!(cx, C03, "push_ret_stamp", rstamp == stored0.map(|x| x.1), "push({},{}) must return the priority that was stored (stamp {:?}); it returned one with stamp {:?}", k, p, stored0.map(|x| x.1), rstamp);
+            expect!(cx, C03, "push_stores_given", q.prio_stamp(&KeyId(*k)) == Some((*p, *pl)), "after push({},{}) the stored priority is {:?} (value, stamp), not the one given (stamp {})", k, p, q.prio_stamp(&KeyId(*k)), pl);
             m.push(*k, *p, *pl);
         }
         Step::PushInc { k, p, pl } | Step::PushDec { k, p, pl } => {
@@ -472,14 +485,16 @@ pub fn exec(q: &mut AnyQ, m: &mut Model, st: &Step, cx: &mut Ctx) {
         Step::Change { k, p, b, pl } => {
             let exp = m.prio(*k);
             probe_change(q, m, *k, *p, cx);
-            let r = if *b {
-                q.change_priority_borrowed(&KeyId(*k), Prio::new(*p))
-            } else {
-                q.change_priority_owned(&Key::new(*k, *pl), Prio::new(*p))
-            }
-            .map(|x| x.v);
+            let stored0 = q.prio_stamp(&KeyId(*k));
+            let rr = if *b { q.change_priority_borrowed(&KeyId(*k), Prio::stamped(*p, *pl)) } else { q.change_priority_owned(&Key::new(*k, *pl), Prio::stamped(*p, *pl)) };
+            let rstamp = rr.as_ref().map(|x| x.s);
+            let r = rr.map(|x| x.v);
             cx.ret_opt_i32(r);
             expect!(cx, C03, "change_ret", r == exp, "change_priority({},{}) returned {:?}, model says {:?}", k, p, r, exp);
+            if exp.is_some() {
+                expect!(cx, C03, "change_ret_stamp", rstamp == stored0.map(|x| x.1), "change_priority({},{}) must return the old priority (stamp {:?}); it returned one with stamp {:?}", k, p, stored0.map(|x| x.1), rstamp);
+                expect!(cx, C03, "change_stores_given", q.prio_stamp(&KeyId(*k)) == Some((*p, *pl)), "after change_priority({},{}) the stored priority is {:?} (value, stamp), not the one given (stamp {})", k, p, q.prio_stamp(&KeyId(*k)), pl);
+            }
             if exp.is_some() {
                 m.set_prio(*k, *p);
             }
@@ -914,14 +929,19 @@ pub fn exec(q: &mut AnyQ, m: &mut Model, st: &Step, cx: &mut Ctx) {
             *q = cl;
         }
         Step::CloneFrom { dst } => {
-            let mut d = construct(kind, Ctor::WithHasher);
+            // the queue under test is the DESTINATION: it receives clone_from(&source), the source
+            // being a queue built from the step's pairs
+            let mut src = construct(kind, Ctor::WithHasher);
+            let mut sm = Model::default();
             for (key, pr) in mkpairs(dst) {
-                d.push(key, pr);
+                sm.push(key.id(), pr.v, key.payload);
+                src.push(key, pr);
             }
-            d.clone_from_q(q);
-            expect!(cx, C14, "clone_from_eq", d.eq_q(q) && q.eq_q(&d), "after dst.clone_from(&src), dst != src");
-            expect!(cx, C14, "clone_from_len", d.len() == q.len() && d.is_empty() == q.is_empty(), "after dst.clone_from(&src) dst.len()={} but src.len()={}", d.len(), q.len());
-            *q = d;
+            q.clone_from_q(&src);
+            expect!(cx, C14, "clone_from_eq", src.eq_q(q) && q.eq_q(&src), "after dst.clone_from(&src), dst != src");
+            expect!(cx, C14, "clone_from_len", src.len() == q.len() && src.is_empty() == q.is_empty(), "after dst.clone_from(&src) dst.len()={} but src.len()={}", q.len(), src.len());
+            *m = sm;
+            cx.order_suspended = false;
         }
         Step::Serde { switch } => {
             let s = q.to_json();
@@ -991,7 +1011,9 @@ pub fn exec(q: &mut AnyQ, m: &mut Model, st: &Step, cx: &mut Ctx) {
             let before = q.contents();
             match q.clone() {
                 AnyQ::Pq(x) => {
-                    let (out, _it) = run_prog(Fwd(x.into_sorted_iter()), prog, before.len(), None, &|x: &(Key, Prio)| x.0.id(), &mut |_| {});
+                    // forward-only: a plain next() pass over an identical queue is the reference
+                    let reference: Vec<u32> = x.clone().into_sorted_iter().map(|(k, _)| k.id()).collect();
+                    let (out, _it) = run_prog(Fwd(x.into_sorted_iter()), prog, before.len(), Some(&reference), &|x: &(Key, Prio)| x.0.id(), &mut |_| {});
                     for (cl, msg) in &out.problems {
                         cx.fail(C06 | C13, cl, format!("PriorityQueue::into_sorted_iter: {}", msg));
                     }
@@ -999,7 +1021,11 @@ pub fn exec(q: &mut AnyQ, m: &mut Model, st: &Step, cx: &mut Ctx) {
                     check_sorted_episode(cx, C06 | C01, &before, &ys, true);
                 }
                 AnyQ::Dpq(x) => {
-                    let (out, _it) = run_prog(Dbl(x.into_sorted_iter()), prog, before.len(), None, &|x: &(Key, Prio)| x.0.id(), &mut |_| {});
+                    // positional reference only for programs that stay at the front (ties make the
+                    // two ends of a min-max heap interact)
+                    let front_only = !prog.iter().any(|o| matches!(o, ItOp::NextBack | ItOp::NthBack(_) | ItOp::RestLast));
+                    let reference: Option<Vec<u32>> = if front_only { Some(x.clone().into_sorted_iter().map(|(k, _)| k.id()).collect()) } else { None };
+                    let (out, _it) = run_prog(Dbl(x.into_sorted_iter()), prog, before.len(), reference.as_deref(), &|x: &(Key, Prio)| x.0.id(), &mut |_| {});
                     for (cl, msg) in &out.problems {
                         let t = match *cl {
                             "size_hint" | "size_hint_bounds" => C13,
